@@ -14,7 +14,8 @@
 //                              given outputs, and for each of the two timer collections
 //                              (`holdtime_futures`, `keepalive_futures`) the harness reports
 //                                (a) whether `.next()` - exactly what `run_select` polls - becomes
-//                                    ready within 30 ms of real time (`fires` / `quiet`), and
+//                                    ready within 30 ms on the runtime's clock (paused: a timer that is not due by then is
+//                                    `quiet`; `fires` / `quiet`), and
 //                                (b) the armed deadline: `Sleep::deadline() - now` rounded to whole
 //                                    seconds, `far` when > 10^8 s (tokio caps `sleep(u64::MAX s)` at
 //                                    about 30 years = 9.46e8 s), `empty` when the collection has no
